@@ -61,7 +61,7 @@ def grammar_vs_parser(maxlen):
 
 def run(chk, tier, seed):
     named = case_list(tier, seed)
-    npres = 2 if tier == "quick" else 3
+    npres = 2
     pres = [le.presentation(seed, i) for i in range(npres)]
     det = {n for n, _d in le.corpus_defs() + le.f_defs(5 if tier == "quick" else 6) + le.fplus_defs(5 if tier == "quick" else 6)}
     subsets = {"all_upto": 6, "sampled": 0, "deterministic_names": det} if tier == "quick" else \
